@@ -65,6 +65,12 @@ SED[core_general_drops_small]='s|if ( checkEqualSmall(a,b) ) return true;|if ( a
 FILE[sarsa_optimistic_init]=src/MDP/Algorithms/SARSA.cpp
 SED[sarsa_optimistic_init]='s|q_(makeQFunction(S, A))|q_(QFunction::Ones(S, A))|'
 TEST[sarsa_optimistic_init]="MDP/SARSATests"
+FILE[mlm_first_visit_keeps_selfloop]=include/AIToolbox/MDP/MaximumLikelihoodModel.hpp
+SED[mlm_first_visit_keeps_selfloop]='s|^            transitions_\[a\].row(s).setZero();|            ;|'
+TEST[mlm_first_visit_keeps_selfloop]="MDP/MaximumLikelihoodModelTests MDP/PrioritizedSweepingTests"
+FILE[mlm_sync_reward_not_refreshed]=include/AIToolbox/MDP/MaximumLikelihoodModel.hpp
+SED[mlm_sync_reward_not_refreshed]='/::sync(const size_t s, const size_t a, const size_t s1) {/,/^    }/s|rewards_(s, a) = experience_.getReward(s, a);|;|'
+TEST[mlm_sync_reward_not_refreshed]="MDP/MaximumLikelihoodModelTests MDP/PrioritizedSweepingTests"
 TEST[eps_weights_swapped]="MDP/QGreedyPolicyTests MDP/ExpectedSARSATests MDP/RetraceLTests"
 TEST[greedy_exact_ties_only]="MDP/QGreedyPolicyTests MDP/ExpectedSARSATests"
 TEST[model_sampleSR_reward_of_next]="MDP/ModelTests MDP/DynaQTests MDP/Dyna2Tests"
